@@ -39,6 +39,15 @@ def ref_clean(s):
     return (s[0].upper() + s[1:]) if s else s
 
 
+def _bytes_differs(ca, b, res):
+    """parse_anything takes bytes (UTF-8): matches(b'name') is matches('name'), also inside an iterable"""
+    try:
+        bb = b.encode("utf8")
+    except UnicodeEncodeError:
+        return False
+    return ca.matches(bb) != res or ca.matches([bb]) != res or ca.matches((x for x in [bb])) != res
+
+
 def _worker(seeds):
     import mwparserfromhell
     from mwparserfromhell.nodes import Text
@@ -84,6 +93,8 @@ def _worker(seeds):
                 fail = "not symmetric"
             elif res != ca.matches(cb) or (len(cb.nodes) == 1 and res != ca.matches(cb.nodes[0])):
                 fail = "string / Wikicode / node arguments disagree"
+            elif _bytes_differs(ca, b, res):
+                fail = "a bytes argument %r gives another answer than the same name as str, or than a list holding it" % (b.encode("utf8", "surrogatepass"),)
             elif res != (ref_clean(sa) == ref_clean(sb)):
                 fail = "result %r differs from the normal-form comparison of %r and %r" % (res, sa, sb)
             elif plain:
